@@ -612,6 +612,12 @@ Definition env_ok (E : env) : bool :=
   forallb (cls_ok E) (e_classes E)
   && forallb (fun p => forallb (row_ok E) (snd p)) (e_tables E).
 
+(* the writer half alone: what `wr_wf` (C02: emitted bytes are well-formed TTLV) needs.  A change on the
+   reader side of a class leaves this true. *)
+Definition env_wr_ok (E : env) : bool :=
+  forallb (fun k => forallb (item_ok E) (c_wr k)) (e_classes E)
+  && forallb (fun p => forallb (row_ok E) (snd p)) (e_tables E).
+
 (* the tags an element of kind k (written under item tag `tag`) can start with *)
 Definition ktags (E : env) (tag : Z) (k : kind) : list Z :=
   match k with KTagged t => map row_tag (find_table E t) | _ => [tag] end.
